@@ -65,7 +65,7 @@ def rule_flag_writers(ctx):
                           ix.bodies[k].where(sb),
                           bad_what="%s, reachable from the spawned search thread, stores %s into the shared running flag after it was published to the input thread: a `stop` processed before this store is overwritten and lost"
                           % (C.short(k), {1: "`true`", None: "a non-constant value"}.get(v)))
-    ctx.floor("atomic stores reachable from the search thread", n_store, 3)
+    ctx.floor("atomic stores reachable from the search thread", n_store, 2)
     # creation value
     nb = ctx.body("search::Search::new")
     sym = ctx.sym(nb)
@@ -245,6 +245,38 @@ def _wrapper_true_implies_flag(ix, key, depth):
     return True
 
 
+def _local_true_implies_flag(ix, body, local, depth, _seen=None):
+    """Every definition of the bool local that can make it true is the flag load itself, a predicate that implies it, a copy
+    of such a local, or sits behind a flag-load guard whose false edge cannot reach it."""
+    _seen = _seen or set()
+    if local in _seen or len(_seen) > 6:
+        return False
+    _seen = _seen | {local}
+    sym = mir.Sym(body, ix)
+    defs = body.defs().get(local, [])
+    if not defs or 1 <= local <= body.arg_count:
+        return False
+    for (db, di, rv) in defs:
+        if rv.get("k") == "partial":
+            return False
+        if rv.get("k") == "use":
+            if const_int(rv["a"]) == 0:
+                continue
+            q = op_place(rv["a"])
+            if q is not None and mir.is_local(q) and _local_true_implies_flag(ix, body, q["l"], depth, _seen):
+                continue
+        if rv.get("k") == "call":
+            t = rv["t"]
+            v = ("call", mir.strip_generics(mir.callee_name(t)), tuple(sym.operand(a) for a in t["args"]))
+            if _is_flag_load(v) or _wrapper_true_implies_flag(ix, v[1], depth + 1):
+                continue
+        guards = set(flag_load_guards(ix, body, {db}, depth + 1))
+        if guards and db not in body.reachable_from(0, removed=guards, include_start=True):
+            continue
+        return False
+    return True
+
+
 def flag_load_guards(ix, body, protect, _depth=0):
     """Blocks switching on a load of the search_running flag whose flag==false edge cannot reach `protect`."""
     sym = mir.Sym(body, ix)
@@ -256,7 +288,12 @@ def flag_load_guards(ix, body, protect, _depth=0):
         if sc is None:
             continue
         e, neg = sc
-        if not (e[0] == "call" and (_is_flag_load(e) or (_depth < 2 and _wrapper_true_implies_flag(ix, e[1], _depth)))):
+        if e[0] == "var" and _depth < 2:
+            # `let busy = match .. { (Some(jh), Some(flag)) => !jh.is_finished() && flag.load(..), _ => false }; if busy {..}`
+            ls = [l for l in range(len(body.locals)) if body.local_name(l) == e[1]]
+            if not (len(ls) == 1 and _local_true_implies_flag(ix, body, ls[0], _depth)):
+                continue
+        elif not (e[0] == "call" and (_is_flag_load(e) or (_depth < 2 and _wrapper_true_implies_flag(ix, e[1], _depth)))):
             continue
         f, tr = C.switch_edges(blk.term)
         false_edges = tr if neg else f
@@ -343,29 +380,12 @@ def rule_no_swallow(ctx):
     pb = parse[0]
     # paths from the parse that neither execute nor come back to the loop head through an error log or exit on Quit
     logs = {bi for bi, t in b.calls() if callee_is(t, "logger::Logger::elog", "logger::Logger::log", "std::io::_eprint", "std::io::_print")}
-    quit_guards = set()
-    adt = ix.adt(UCICOMMAND)
-    quit_idx = [int(v["discr"]) for v in adt["variants"] if v["name"] == "Quit"]
-    for blk in b.blocks:
-        if blk.term["k"] == "switch":
-            e = sym.operand(blk.term["discr"])
-            if e[0] == "discr" and quit_idx and any(a[0] == quit_idx[0] for a in blk.term["arms"]):
-                quit_guards.add(blk.idx)
+    quit_edges = C.variant_test_edges(ix, b, UCICOMMAND, "Quit")
+    quit_guards = set(quit_edges)
     ctx.check(len(quit_guards) >= 1, "%s:quit-test" % UCI_LOOP, "uci_loop tests the parsed command for Quit", b.where(pb),
               bad_what="uci_loop has no test for UCICommand::Quit")
     start = b.blocks[pb].term["target"]
     # a silent drop: reach the parse again (next iteration) or EXIT without execute_command or a log, other than on the Quit edge
-    quit_edges = {}
-    for blk in b.blocks:
-        if blk.cleanup or blk.term["k"] != "switch":
-            continue
-        if blk.idx in quit_guards:
-            quit_edges[blk.idx] = {a[1] for a in blk.term["arms"] if quit_idx and a[0] == quit_idx[0]}
-        fl = C.resolve_flag(ix, b, sym, blk.term["discr"]) if blk.term.get("discr_ty") == "bool" else None
-        if fl is not None and fl[1].get(True) == {"Quit"}:
-            f_, tr_ = C.switch_edges(blk.term)
-            quit_edges[blk.idx] = set(tr_)
-            quit_edges.pop(fl[2], None)  # the discriminant switch only sets the flag
     silent = set()
     stack = [start]
     while stack:
